@@ -204,6 +204,21 @@ func (P *Prog) foldIntG(t *Term) (int64, bool) {
 			}
 		}
 	}
+	if t.Op == "binop" && len(t.Args) == 2 && (t.S == "<<" || t.S == ">>") {
+		if a, ok := P.foldIntG(t.Args[0]); ok {
+			if b, ok := P.foldIntG(t.Args[1]); ok && b >= 0 && b < 62 {
+				if t.S == "<<" {
+					return a << uint(b), true
+				}
+				return a >> uint(b), true
+			}
+		}
+	}
+	if t.Op == "convert" && len(t.Args) == 1 {
+		if a, ok := P.foldIntG(t.Args[0]); ok && a >= 0 && a < 1<<31 {
+			return a, true
+		}
+	}
 	if t.Op == "binop" && len(t.Args) == 2 && (t.S == "+" || t.S == "-") {
 		if a, ok := P.foldIntG(t.Args[0]); ok {
 			if b, ok := P.foldIntG(t.Args[1]); ok {
@@ -435,6 +450,64 @@ func (A *audit) indexSafe(x, idx ssa.Value, at ssa.Instruction) (bool, string) {
 		}
 		if A.minLenCtx(at.Parent(), xt, fs, l.constBound, 0) {
 			return true, fmt.Sprintf("index is the loop variable bounded by %d and len(%s) >= %d", l.constBound, xt, l.constBound)
+		}
+	}
+	// the counter of a loop whose trip count depends on a value the dominating
+	// facts confine to a few cases (CBOR head widths): judged per case with
+	// the largest index the loop reaches in it
+	for _, l := range A.loopsOf(at.Parent()) {
+		cl := monotoneLoop(at.Parent(), l)
+		if cl == nil || ssa.Value(cl.phi) != idx || !l.blocks[at.Block()] || at.Block() == l.header || cl.start < 0 {
+			continue
+		}
+		var fl []Fact
+		for _, f := range fs {
+			fl = append(fl, f)
+		}
+		var dom []int64
+		var tv *Term
+		if cl.caseV != nil {
+			tv = P.terms.of(cl.caseV)
+			d, ok := smallDomain(tv, fl, 8)
+			if !ok {
+				continue
+			}
+			dom = d
+		} else {
+			dom = []int64{0}
+		}
+		all := true
+		for _, v := range dom {
+			eng := P.terms.withConst(map[ssa.Value]int64{})
+			cfs := fs
+			if cl.caseV != nil {
+				eng = P.terms.withConst(map[ssa.Value]int64{cl.caseV: v})
+				cfs = fs.clone()
+				cfs.add(normFact(tEq(tInt(v), tv), true))
+			}
+			b, ok := P.foldIntG(eng.of(cl.bound))
+			if !ok {
+				all = false
+				break
+			}
+			last := b
+			if !cl.incl {
+				last = b - 1
+			}
+			if last < cl.start {
+				continue // no iteration in this case
+			}
+			if A.minLenCtx(at.Parent(), xt, cfs, last+1, 0) {
+				continue
+			}
+			if ok, _ := A.wellformedHeadException(at.Parent(), xt, last, cfs); ok {
+				continue
+			}
+			all = false
+			break
+		}
+		if all {
+			return true, fmt.Sprintf("index is the counter of a loop bounded per case of %v (%d cases): the largest index reached is within the length established for each case", tv, len(dom))
 		}
 	}
 	it := P.terms.of(idx)
@@ -999,6 +1072,10 @@ func runC06(r *Report, tier string) {
 			case "counted":
 				o.ok("counted loop from 0 step 1 to a fixed bound", true)
 			default:
+				if cl := monotoneLoop(fn, l); cl != nil {
+					o.ok("counter from a constant, step 1, against a loop-invariant bound", true)
+					continue
+				}
 				o.fail("loop form not recognised as bounded (no range, no monotone counter against a fixed bound)")
 			}
 		}
